@@ -44,12 +44,17 @@ def derive_seed(seed, *parts):
 
 
 def load_known(prop):
-    path = os.path.join(HOME, 'known_findings.json')
-    if not os.path.exists(path):
-        return []
-    with open(path) as f:
-        data = json.load(f)
-    return [e for e in data.get('findings', []) if e.get('property') == prop]
+    out = []
+    paths = [os.path.join(HOME, 'known_findings.json')]
+    if os.environ.get('VERIF_EXTRA_KNOWN'):      # development aid: proposed entries not yet committed
+        paths.append(os.environ['VERIF_EXTRA_KNOWN'])
+    for path in paths:
+        if not os.path.exists(path):
+            continue
+        with open(path) as f:
+            data = json.load(f)
+        out.extend(e for e in data.get('findings', []) if e.get('property') == prop)
+    return out
 
 
 class Ctx(object):
